@@ -15,7 +15,8 @@ package main
 //              step = (ActionResult ((id #field) ...))   the Propagate calls made inside this Do
 //              late = (present #field intact) per non-time-out event, read after the whole sequence
 //              panic = 0 | 1 "timeout without joining" | 2 "first event is nil" | 3 other
-// which=2    case = ((max split cutoff cutfield onlynode) (chunk ...))
+// which=2/3  (3 = same run, judged by the flush-on-time-out clause: byte conservation)
+//            case = ((max split cutoff cutfield onlynode) (chunk ...))
 //              chunk = 0 (time-out) | (style #raw size #escaped)
 //                style 0: log = raw bytes as the CRI decoder stores them; 1: log decoded from JSON text
 //                `{"log":<escaped>}`; 2: no log field; 3: log = JSON literal <raw> (number/true/null)
@@ -337,7 +338,7 @@ func c15ExecK8s(cs hx.Sx) hx.Sx {
 }
 
 func c15Exec(which int, cs hx.Sx) hx.Sx {
-	if which == 2 {
+	if which == 2 || which == 3 {
 		return c15ExecK8s(cs)
 	}
 	return c15ExecJoin(which, cs)
@@ -412,7 +413,7 @@ func c15Gen(c *hmain.Ctx) {
 	w := c.W
 
 	// ---- 1. join, exhaustive: every sequence over {start, continue, other, no-field, time-out},
-	//         time-outs only while the action is busy, x max_event_size in {0,5} x negate
+	//         time-outs only while the action is busy, x max_event_size in {0,4} x negate (values are 2 bytes long, so 4 is hit exactly)
 	maxLen := 6
 	if c.Tier == "thorough" {
 		maxLen = 8
@@ -429,7 +430,7 @@ func c15Gen(c *hmain.Ctx) {
 		return hx.L(hx.I(max), hx.L(hx.Bool(neg)), hx.L(hx.S(sre), hx.S(cre)))
 	}
 	for _, neg := range []bool{false, true} {
-		for _, max := range []int{0, 5} {
+		for _, max := range []int{0, 4} {
 			cfgSx := joinCfg(max, neg, `^S`, `^C`)
 			var rec func(seq []jev, bt busyTrack, runs int)
 			rec = func(seq []jev, bt busyTrack, runs int) {
@@ -462,7 +463,7 @@ func c15Gen(c *hmain.Ctx) {
 	// ---- 2. join, adversarial delivery: time-outs anywhere (the model predicts the Panicf)
 	{
 		advLen := 5
-		cfgSx := joinCfg(5, false, `^S`, `^C`)
+		cfgSx := joinCfg(4, false, `^S`, `^C`)
 		var rec func(seq []jev)
 		rec = func(seq []jev) {
 			if len(seq) > 0 {
@@ -751,6 +752,35 @@ func c15Gen(c *hmain.Ctx) {
 		}
 	}
 
+	// ---- 6b. the flush-on-time-out clause (which=3: byte conservation). max_event_size 0, the
+	//          sequence ends with a complete line; a time-out that finds chunks buffered loses them
+	//          (recorded finding C15-k8s-timeout-drops-partial-line)
+	for i := 0; i < 300*c.Scale; i++ {
+		var seq []kch
+		lost := false
+		buffered := false
+		for j, n := 0, r.Range(1, 6); j < n; j++ {
+			switch {
+			case r.Chance(1, 4):
+				seq = append(seq, kch{style: -1})
+				if buffered {
+					lost = true
+				}
+				buffered = false
+			default:
+				final := r.Chance(1, 3)
+				k := cri(randRaw(final))
+				seq = append(seq, k)
+				buffered = !final
+			}
+		}
+		seq = append(seq, cri(randRaw(true)))
+		c.Do("k8s-timeout-flush", 3, hx.L(kCfg(0, 4*look, false, false, false), hx.List(seq, kSx)), true)
+		if lost {
+			w.Count("k8s_timeout_with_buffered_chunks")
+		}
+	}
+
 	// ---- 7. k8s adversarial: missing / non-string log field, tiny max_event_size, only_node
 	lits := []string{"5", "12", "123", "true", "null", "-1.5"}
 	for i := 0; i < 1500*c.Scale; i++ {
@@ -803,6 +833,6 @@ func c15EscOracle(raw, esc string) bool {
 
 func main() {
 	hmain.Run(&hmain.Prop{ID: "C15",
-		Rule: "join-exhaustive: every sequence over {start, continue, other, no-field, time-out} (time-outs only while busy) up to the tier's length x max_event_size {0,5} x negate; join-any-timeouts: the same alphabet with unconstrained time-outs (len<=5); join-random / join-template: long sequences, real regexps / templates, oracle bits computed by the real matchers; k8s-exhaustive: every chunk sequence over 7 raw fragments + time-out x 5 configs; k8s-random, k8s-adversarial. Non-trivial = the sequence contains at least one run start (join) / one partial chunk (k8s) and has >= 2-3 events; distinct = distinct (sub-model, case) text.",
+		Rule: "join-exhaustive: every sequence over {start, continue, other, no-field, time-out} (time-outs only while busy) up to the tier's length (6 quick / 8 thorough) x max_event_size {0,4} x negate; join-any-timeouts: the same alphabet with unconstrained time-outs (len<=5); join-random / join-template: long sequences, real regexps / templates, oracle bits computed by the real matchers; k8s-exhaustive: every chunk sequence over 7 raw fragments + time-out x 5 configs; k8s-random, k8s-adversarial. Non-trivial = the sequence contains at least one run start (join) / one partial chunk (k8s) and has >= 2-3 events; distinct = distinct (sub-model, case) text.",
 		Gen:  c15Gen, Exec: c15Exec})
 }
